@@ -45,6 +45,22 @@ def _validate_process_state(
         )
 
 
+def _validate_process_heats(
+    evaporation_heat: float,
+    condensation_heat: typing.Optional[float],
+) -> None:
+    """
+    Raises ValueError if the heats of a process step are not finite
+    """
+    if not numpy.isfinite(evaporation_heat) or (
+        condensation_heat is not None and not numpy.isfinite(condensation_heat)
+    ):
+        raise ValueError(
+            "The process left the physically admissible region "
+            "(non-finite heat of evaporation or condensation), reduce the step size"
+        )
+
+
 @attr.s(auto_attribs=True)
 class Pervaporation:
     membrane: Membrane
@@ -424,6 +440,9 @@ class Pervaporation:
                     )
                 )
 
+            _validate_process_heats(
+                feed_evaporation_heat[step], permeate_condensation_heat[step]
+            )
             feed_mass.append(feed_mass[step] - d_mass_1 - d_mass_2)
 
             feed_composition.append(
@@ -604,6 +623,9 @@ class Pervaporation:
                 evaporation_heat_1 * d_mass_1 + evaporation_heat_2 * d_mass_2
             )
 
+            _validate_process_heats(
+                feed_evaporation_heat[step], permeate_condensation_heat[step]
+            )
             feed_mass.append(feed_mass[step] - d_mass_1 - d_mass_2)
 
             feed_composition.append(
@@ -1142,6 +1164,9 @@ class Pervaporation:
                     )
                 )
 
+            _validate_process_heats(
+                feed_evaporation_heat[step], permeate_condensation_heat[step]
+            )
             feed_mass.append(feed_mass[step] - d_mass_1 - d_mass_2)
 
             feed_composition.append(
@@ -1465,6 +1490,9 @@ class Pervaporation:
                 evaporation_heat_1 * d_mass_1 + evaporation_heat_2 * d_mass_2
             )
 
+            _validate_process_heats(
+                feed_evaporation_heat[step], permeate_condensation_heat[step]
+            )
             feed_mass.append(feed_mass[step] - d_mass_1 - d_mass_2)
 
             feed_composition.append(
